@@ -150,8 +150,10 @@ func vlRun(t *testing.T, tr *vkTrace, id int, v vlVec) { //nolint:cyclop
 			return 16 * 1024
 		case "64k":
 			return 65535
+		case "64KiB": // the largest message of the property's range; one more than the read loop's first buffer
+			return 65536
 		case "mixed":
-			return []int{0, 1, 1024, 16384, 65535, 3}[k%6]
+			return []int{0, 1, 1024, 16384, 65535, 3, 65536, 70}[k%8]
 		}
 		return rng.Intn(20000)
 	}
@@ -177,8 +179,11 @@ func vlRun(t *testing.T, tr *vkTrace, id int, v vlVec) { //nolint:cyclop
 				var err error
 				if c.cfg.Text {
 					s := hex.EncodeToString(data)
-					if len(s) > 65535 {
-						s = s[:65535]
+					if len(s) > len(data) { // text of the requested length
+						s = s[:len(data)]
+					}
+					if len(data) == 1 {
+						s = "7"
 					}
 					data = []byte(s)
 					err = c.dc.SendText(s)
